@@ -777,7 +777,69 @@ class Run:
             self.fs.uninstall()
 
 
+def execute_real_death(scenario: dict, workdir: str, keep_events: bool = False) -> dict:
+    """Cross-check of the in-process crash model: the loader runs in a fresh interpreter that really dies
+    (os._exit) at byte k of the cache write; a second fresh interpreter performs two recovery loads."""
+    import subprocess
+
+    run = Run(scenario, workdir, keep_events)
+    run.build_world()
+    d = scenario['world']['datasets'][0]
+    a, k = scenario['rd']['args'], scenario['rd']['k']
+    ref = run.ref(0, a)
+    helper = os.path.join(os.path.dirname(os.path.dirname(os.path.abspath(__file__))), 'sim', 'real_death_child.py')
+    violation = None
+    env = dict(os.environ)
+    try:
+        run.step = 0
+        p1 = subprocess.run([sys.executable, helper, 'crash', d['fmt'], 'd0', str(a), str(k)], capture_output=True, timeout=300, env=env)
+        files = sorted(p for p in run.dir_snapshot(0))
+        sizes = [os.path.getsize(p) for p in files]
+        run.trace.log(ev='REAL_CRASH', k=k, exit=p1.returncode, n_files=len(files), sizes=sizes)
+        if p1.returncode != 137:
+            raise HarnessError(f'crash child exited {p1.returncode}: {p1.stderr[-400:]!r}')
+        run.stats.fault('real_process_death')
+        if sizes and sizes[0] != min(k, ref['size']):
+            run.stats.probe('real_death_size_differs_from_k')
+        run.step = 1
+        outp = os.path.join(workdir, 'recover.pkl')
+        p2 = subprocess.run([sys.executable, helper, 'recover', d['fmt'], 'd0', str(a), outp], capture_output=True, timeout=300, env=env)
+        if p2.returncode != 0:
+            raise HarnessError(f'recover child exited {p2.returncode}: {p2.stderr[-400:]!r}')
+        with REAL_OPEN(outp, 'rb') as f:
+            outs = pickle.load(f)
+        for i, o in enumerate(outs):
+            run.oracle_checks += 1
+            run.trace.log(ev='REAL_RECOVER', i=i, outcome=o[0], rec=rec_fp(o[1]) if o[0] == 'ret' else o[1])
+            if o[0] == 'exc':
+                run.violation('load_raised', f'after a real process death at byte {k} of the cache write, load {i + 1} raised {o[1]}: {o[2]}', {'fmt': d['fmt'], 'exc': o[1]})
+            dd = rec_diff(ref['rec'], o[1])
+            if dd:
+                run.violation('wrong_trajectory', f'after a real process death at byte {k}, load {i + 1} differs from a clean parse: {dd}', {'fmt': d['fmt'], 'args': a})
+        ok = False
+        for pth in run.dir_snapshot(0):
+            try:
+                if rec_diff(ref['rec'], traj_record(run.plain_load(pth))) is None:
+                    ok = True
+            except Exception:  # noqa: BLE001
+                pass
+        run.oracle_checks += 1
+        if not ok:
+            run.violation('no_recovery', f'after a real process death at byte {k} and two loads no complete cache exists', {'fmt': d['fmt']})
+        run.stats.probe('healed_after_real_death')
+    except Violation as v:
+        violation = v.to_json()
+        run.trace.log(ev='VIOLATION', cls=v.cls, step=v.step)
+    return {
+        'digest': run.trace.digest(), 'violation': violation, 'stats': run.stats.to_json(), 'steps': run.trace.n,
+        'oracle_checks': run.oracle_checks, 'nontrivial': True, 'fault_free': False,
+        **({'events': run.trace.events} if keep_events else {}),
+    }
+
+
 def execute(scenario: dict, workdir: str, keep_events: bool = False) -> dict:
+    if scenario.get('rd'):
+        return execute_real_death(scenario, workdir, keep_events)
     run = Run(scenario, workdir, keep_events)
     violation = None
     try:
@@ -995,6 +1057,24 @@ def plan_enumeration(tier: str, batch_seed: int, plandir: str):
             jobs += enum_scenarios(d, args_idx, size, m, chunk=24, stride=stride)
             if m == 'E1' and tier == 'thorough':
                 jobs += enum_scenarios(d, args_idx, size, 'E1', chunk=24, stride=7, kinds=('zero_tail', 'ff_tail'))
+    if tier == 'thorough':
+        # (a) real process death on a sample of offsets of the first world per format
+        n_rd = 0
+        for w in info['worlds'][::3]:
+            size = w['cache_bytes']
+            ks = sorted({0, 1, 2, size // 3, size // 2, size - 2, size - 1, size} | {rng.randrange(size + 1) for _ in range(24)})
+            for k in ks:
+                jobs.append({'format': 1, 'property': PROP, 'run_seed': None, 'stream': 'real-death', 'config': {'enum': 'RD'},
+                             'world': {'datasets': [w['dataset']]}, 'rd': {'args': 0, 'k': int(k)}, 'ops': [{'op': 'REAL_DEATH', 'k': int(k)}]})
+                n_rd += 1
+        info['real_process_death_scenarios'] = n_rd
+        # (b) one large world whose cache is written in several write() calls: crash offsets on a stride
+        big = worlds.gen_dataset_params(rng, fmt='lammps', big=True)
+        bsize = cache_size_of(big, 0, os.path.join(plandir, 'big'))
+        stride = max(1, bsize // 160)
+        info['large_world'] = {'dataset': big, 'cache_bytes': bsize, 'stride': stride, 'exhaustive': False}
+        jobs += enum_scenarios(big, 0, bsize, 'E2', chunk=4, stride=stride)
+        jobs += enum_scenarios(big, 0, bsize, 'E1', chunk=4, stride=stride)
     info['modes'] = sorted({m for _, ms, _ in plan for m in ms})
     info['scenarios'] = len(jobs)
     info['offsets_total'] = sum(w['offsets'] * len(w['modes']) for w in info['worlds'])
